@@ -16,18 +16,19 @@ Theorem C03_clause_row_sound_partial :
   forall e c t r, fixoid e = true -> binders_checked (binders c) t ->
     row_of e c t = Ok (Some r) ->
     should_ignore c t = false /\
-    (forall k x, In (k, x) (binders c) -> exists v, xval (c_opt c) x t = Some v /\ get r k = Some v) /\
+    (forall k x, In (k, x) (binders c) -> exists v w, xval (c_opt c) x t = Some v /\ get r k = Some w /\ cell_equiv w v = true) /\
     (forall k, get r k <> None -> In k (map fst (binders c))).
 Proof. exact clause_row_sound. Qed.
 Print Assumptions C03_clause_row_sound_partial.
 
-(* ... and every assignment mu that gives each binding of the clause the corresponding part of the triple is an extension
-   of the row the planner builds: no match is lost, one value per binding *)
+(* ... and every assignment mu that gives each binding of the clause (a value equivalent to) the corresponding part of the
+   triple extends the row the planner builds: no match is lost, one value per binding (values are compared up to the zone in
+   which an instant is written, the way joins compare them: repair F25) *)
 Theorem C03_clause_row_complete_partial :
-  forall e c t mu, fixoid e = true -> binders_checked (binders c) t ->
+  forall e c t mu, fixoid e = true -> fixzone e = true -> binders_checked (binders c) t ->
     should_ignore c t = false ->
-    (forall k x, In (k, x) (binders c) -> exists v, xval (c_opt c) x t = Some v /\ get mu k = Some v) ->
-    exists r, row_of e c t = Ok (Some r) /\ row_matches c t r /\ sub_row r mu.
+    (forall k x, In (k, x) (binders c) -> exists v w, xval (c_opt c) x t = Some v /\ get mu k = Some w /\ cell_equiv w v = true) ->
+    exists r, row_of e c t = Ok (Some r) /\ row_matches c t r /\ sub_equiv r mu.
 Proof. exact clause_row_complete. Qed.
 Print Assumptions C03_clause_row_complete_partial.
 
@@ -217,3 +218,16 @@ Theorem C03_spec3_global_bounds_original_refuted :
             (exists outs, run_model (q (current true false)) = Ok (outs, [])).
 Proof. exists w_spec3_global_bounds. vm_compute. split; [eexists _, _; split; reflexivity|eexists; reflexivity]. Qed.
 Print Assumptions C03_spec3_global_bounds_original_refuted.
+
+(* repaired (87509de, F25): one value per binding inside a clause was tested with reflect.DeepEqual, so the same instant written in two
+   zones did not count as one value although joins and the store identify them *)
+Theorem C03_zone_binding_original_refuted :
+  exists q, (exists outs, run_model (q (mkCfg true false true true true true true false)) = Ok (outs, []) /\
+                          run_spec (q (mkCfg true false true true true true true false)) <> []) /\
+            (exists outs row, run_model (q (current true false)) = Ok (outs, [row]) /\ length (run_spec (q (current true false))) = 1%nat).
+Proof.
+  exists w_zone_repeated_binding. vm_compute. split.
+  - eexists. split; [reflexivity|discriminate].
+  - eexists _, _. split; reflexivity.
+Qed.
+Print Assumptions C03_zone_binding_original_refuted.
